@@ -210,26 +210,42 @@ class Grid3Scales(Grid):
         """
         zArray = np.asarray(z, dtype=float)
         zCompact = np.empty_like(zArray)
-        # Largest compact coordinate for which the mapping is finite
-        chiMax = np.nextafter(1.0, 0.0)
-        zMin = float(self.decompactify(-chiMax, 0.0, 0.0)[0])
-        zMax = float(self.decompactify(chiMax, 0.0, 0.0)[0])
+        # Compact coordinates closest to -1 and 1 at which the mapping evaluates to a
+        # finite number (very close to the ends the arctanh terms can round to nan)
+        chiMin, zMin = self._finiteEdge(-1.0)
+        chiMax, zMax = self._finiteEdge(1.0)
         for index in np.ndindex(zArray.shape):
             target = zArray[index]
             if target <= zMin:
-                zCompact[index] = -1.0 if np.isinf(target) else -chiMax
+                zCompact[index] = -1.0 if np.isinf(target) else chiMin
             elif target >= zMax:
                 zCompact[index] = 1.0 if np.isinf(target) else chiMax
             else:
                 zCompact[index] = brentq(
                     lambda chi: float(self.decompactify(chi, 0.0, 0.0)[0]) - target,
-                    -chiMax,
+                    chiMin,
                     chiMax,
                     xtol=1e-15,
                     rtol=1e-14,
                 )
         _, pzCompact, ppCompact = super().compactify(zArray, pz, pp)
         return zCompact, pzCompact, ppCompact
+
+    def _finiteEdge(self, side: float) -> tuple[float, float]:
+        """
+        Returns the compact coordinate closest to side (-1 or 1) where the position
+        mapping is finite, together with the position it is mapped to.
+        """
+        center = float(self.decompactify(0.0, 0.0, 0.0)[0])
+        distance = 1.0 - np.nextafter(1.0, 0.0)
+        while distance < 1.0:
+            chi = side * (1.0 - distance)
+            position = float(self.decompactify(chi, 0.0, 0.0)[0])
+            # Must be finite and on the correct side of the wall center
+            if np.isfinite(position) and side * (position - center) > 0:
+                return chi, position
+            distance *= 2.0
+        raise ValueError("Grid3Scales error: the position mapping is not finite.")
 
     def decompactify(
             self,
